@@ -32,7 +32,7 @@ def run(R):
     if names is None:
         R.viol("C12.tags", "anchor-missing:RecordKind", "enum RecordKind not found")
     if ser is not None and de is not None and names is not None:
-        w = T.switch_table(ser, T.m_call_const(["*Serializer::serialize_u32"], 1), min_targets=3)
+        w = T.switch_table_const_arg(ser, ["*Serializer::serialize_u32"], 1, min_targets=3)
         r = T.switch_table(de, T.m_agg_variant("header::RecordKind"), min_targets=3)
         ok = True
         W = {}
